@@ -49,6 +49,7 @@ def sem_prompt_group(tags=None):
 MU_DEF = ["VP_ABSTRACT_QUEUE", "VP_RG_MU"]
 RG = ["rg/vp_rg.c", "rg/vp_stubs.c"]
 GSTEP = ["vp_g.hold", "vp_g.spin", "vp_g.waited", "vp_g.dead", "vp_g.set_desig", "vp_g.longw_set", "vp_g.enq_long", "vp_g.enq_count", "vp_g.last_new"]
+GLOCK = GSTEP + ["vp_g.queued", "vp_g.p_calls"]
 GALL = GSTEP + ["vp_g.queued", "vp_g.p_calls", "vp_g.v_calls", "vp_g.cond_evals", "vp_g.last_cond", "vp_g.last_sem_outcome"]
 FWDL = ["vp_fw.nw.waiting", "vp_fw.nw.flags", "vp_fw.remove_count", "vp_fw.cv_mu", "vp_fw.flags", "vp_fw.l_type", "vp_fw.cond.f"]
 HOLDLT = "((l_type == nsync_writer_type_ && vp_g.hold == 2) || (l_type == nsync_reader_type_ && vp_g.hold == 1))"
@@ -68,18 +69,22 @@ L_LOCK_SLOW = {"nsync_mu_lock_slow_": [
                     "long_wait == 0 || long_wait == 64u",
                     "(vp_tag_C14_escalate != 0 || wait_count < 30u || long_wait == 64u)",
                     "vp_g.enq_count == wait_count"],
-     "assigns": GALL + FWDL + ["mu->word", "mu->waiters", "w->nw.waiting", "clear", "long_wait", "wait_count", "zero_to_acquire", "attempts"]},
+     "assigns": GLOCK + FWDL + ["mu->word", "mu->waiters", "w->nw.waiting", "clear", "long_wait", "wait_count", "zero_to_acquire", "attempts"]},
     {"names": ["w", "clear", "wait_count"],
      "invariants": ["vp_g.hold == 0 && vp_g.spin == 0 && vp_g.dead == 0", "vp_g.queued == 1",
                     "(clear == 0 && vp_g.waited == 0) || (clear == 8u && vp_g.waited != 0)", "vp_g.enq_count == wait_count + 1u"],
-     "assigns": GALL + ["w->nw.waiting"]}]}
+     "assigns": GLOCK + ["w->nw.waiting"]}]}
 L_REL_SPIN = {"mu_release_spinlock": [{"names": ["mu", "old_word"], "invariants": ["vp_g.spin == 1 && vp_g.dead == 0"],
                                       "assigns": ["vp_g.spin", "vp_g.last_new", "vp_g.dead", "mu->word", "old_word"]}]}
 L_SPIN_TAS = {"nsync_spin_test_and_set_": [{"names": ["w", "old", "attempts", "test"],
     "invariants": ["w != vp_reg.mu_word || (vp_g.spin == 0 && vp_g.dead == 0 && vp_g.hold == __CPROVER_loop_entry(vp_g.hold) && "
                    "vp_g.waited == __CPROVER_loop_entry(vp_g.waited) && vp_g.queued == __CPROVER_loop_entry(vp_g.queued) && "
-                   "vp_g.set_desig == __CPROVER_loop_entry(vp_g.set_desig))"],
-    "assigns": ["*w", "vp_g.spin", "vp_g.enq_count", "vp_g.enq_long", "vp_g.last_new", "old", "attempts"]}]}
+                   "vp_g.set_desig == __CPROVER_loop_entry(vp_g.set_desig))",
+                   "w != vp_reg.cv_word || vp_cvg.spin == 0",
+                   "w == vp_reg.mu_word || (vp_g.spin == __CPROVER_loop_entry(vp_g.spin) && vp_g.enq_count == __CPROVER_loop_entry(vp_g.enq_count) && "
+                   "vp_g.enq_long == __CPROVER_loop_entry(vp_g.enq_long) && vp_g.last_new == __CPROVER_loop_entry(vp_g.last_new))",
+                   "w == vp_reg.cv_word || vp_cvg.spin == __CPROVER_loop_entry(vp_cvg.spin)"],
+    "assigns": ["*w", "vp_g.spin", "vp_g.enq_count", "vp_g.enq_long", "vp_g.last_new", "vp_cvg.spin", "old", "attempts"]}]}
 L_TRY_ACQ = {"mu_try_acquire_after_timeout_or_cancel": [{"names": ["mu", "old_word", "spin_attempts"],
     "invariants": ["vp_g.hold == 0 && vp_g.spin == 0 && vp_g.dead == 0 && vp_g.waited == 0", "vp_g.queued == __CPROVER_loop_entry(vp_g.queued)"],
     "assigns": GSTEP + ["mu->word", "old_word", "spin_attempts"]}]}
@@ -91,7 +96,7 @@ L_MU_WAIT = {"nsync_mu_wait_with_deadline": [
                     "outcome == 0 || outcome == 110 || outcome == 125",
                     "(vp_tag_C05_reason != 0 || outcome == 0 || outcome == vp_g.last_sem_outcome)",
                     "(vp_tag_C05_reason != 0 || (condition_is_true != 0) == (condition == 0 || vp_g.last_cond != 0))"],
-     "assigns": GALL + FWDL + ["vp_my_w", "vp_reg.my_waiting", "mu->word", "mu->waiters", "w", "outcome", "condition_is_true", "first_wait", "old_word"]},
+     "assigns": GALL + FWDL + ["vp_cvg.spin", "vp_my_w", "vp_reg.my_waiting", "mu->word", "mu->waiters", "w", "outcome", "condition_is_true", "first_wait", "old_word"]},
     {"names": ["mu", "l_type", "old_word", "add_to_acquire", "had_waiters"],
      "invariants": ["vp_g.spin == 1 && vp_g.dead == 0 && vp_g.waited == 0 && vp_g.queued == 1", HOLDLT, "vp_g.hold == __CPROVER_loop_entry(vp_g.hold)"],
      "assigns": GSTEP + ["mu->word", "old_word", "add_to_acquire"]},
@@ -141,6 +146,8 @@ def mu_groups(tags=None, which=None):
               replace=["nsync_spin_delay_"], loops=L_SPIN_TAS, defines=MU_DEF, tags=tags, unwind=40, timeout=600, min_obligations=100, assumed=MU_ASSUMED),
         Group(name="common.spin_test_and_set_other_word", srcs=[C] + RG, entry="h_spin_test_and_set_other", enforce="nsync_spin_test_and_set_",
               replace=["nsync_spin_delay_"], loops=L_SPIN_TAS, defines=MU_DEF, tags=tags, unwind=40, timeout=600, min_obligations=100),
+        Group(name="cv.spin_test_and_set", srcs=[C] + RG, entry="h_spin_test_and_set_cv", enforce="nsync_spin_test_and_set_",
+              replace=["nsync_spin_delay_"], loops=L_SPIN_TAS, defines=MU_DEF + ["VP_RG_CV"], tags=tags, unwind=40, timeout=600, min_obligations=100),
         Group(name="common.spin_delay", srcs=[C] + RG, entry="h_spin_delay", enforce="nsync_spin_delay_", defines=MU_DEF, tags=tags,
               unwind=40, unwind_fn={"nsync_spin_delay_": 66}, timeout=600, min_obligations=5),
     ]
@@ -242,3 +249,79 @@ def wait_groups(tags=None):
     return [Group(name="wait.wait_n", srcs=WAIT_S, entry="h_wait_n", enforce="nsync_wait_n", loops=L_WAIT, timeout=900, unwind=30,
                   pre_unwind={"nsync_wait_n": ([0, 1, 2, 4], 8)}, unwind_fn={"h_wait_n": 8}, defines=["VP_REAL_SEM", "VP_MAXC=6"], object_bits=10,
                   tags=tags, assumed=WAIT_ASSUMED, min_obligations=500)]
+
+
+# ---------------------------------------------------------------- condition variable
+CV_S = ["harness/cv/cv_all.c"] + RG + ["repo:internal/common.c"]
+CV_DEF = ["VP_ABSTRACT_QUEUE", "VP_RG_MU", "VP_RG_WAKER", "VP_RG_CV"]
+CVG = ["vp_cvg.spin", "vp_cvg.enq_done", "vp_cvg.unlinked_by_other", "vp_cvg.self_dequeued", "vp_cvg.sections"]
+L_WAKE_WAITERS = {"wake_waiters": [
+    {"names": ["p", "next", "to_wake_list", "pmu", "transferred_a_writer", "woke_areader", "first_cant_acquire", "first_is_writer"],
+     "invariants": ["vp_g.spin == 1 && vp_g.dead == 0 && vp_wk.pending == 0 && vp_wk.cleared == vp_wk.posted",
+                    "vp_g.hold == __CPROVER_loop_entry(vp_g.hold) && vp_g.waited == __CPROVER_loop_entry(vp_g.waited) && vp_g.queued == __CPROVER_loop_entry(vp_g.queued)",
+                    "p == 0 || p == &vp_fw.nw.q", "&pmu->word == vp_reg.mu_word", "to_wake_list == 0 || to_wake_list == &vp_fw.nw.q"],
+     "assigns": FWDL + ["p", "next", "to_wake_list", "pmu->waiters", "transferred_a_writer", "woke_areader"]},
+    {"names": ["pmu", "old_mu_word", "set_on_release"],
+     "invariants": ["vp_g.spin == 1 && vp_g.dead == 0",
+                    "vp_g.hold == __CPROVER_loop_entry(vp_g.hold) && vp_g.waited == __CPROVER_loop_entry(vp_g.waited) && vp_g.queued == __CPROVER_loop_entry(vp_g.queued)",
+                    "&pmu->word == vp_reg.mu_word", "(set_on_release & ~32u) == 0"],
+     "assigns": ["vp_g.spin", "vp_g.last_new", "vp_g.dead", "pmu->word", "old_mu_word"]},
+    {"names": ["p", "next", "to_wake_list"],
+     "invariants": ["vp_g.spin == 0 && vp_wk.pending == 0 && vp_wk.cleared == vp_wk.posted", "p == 0 || p == &vp_fw.nw.q",
+                    "to_wake_list == 0 || to_wake_list == &vp_fw.nw.q"],
+     "assigns": FWDL + WKF + ["p", "next", "to_wake_list", "vp_g.v_calls"]}]}
+L_CV_WAIT = {"nsync_cv_wait_with_deadline_generic": [
+    {"names": ["pcv", "cv_mu", "w", "sem_outcome", "outcome", "remove_count", "attempts", "old_word", "lock", "is_reader_mu"],
+     "invariants": ["vp_g.hold == 0 && vp_g.spin == 0 && vp_g.dead == 0 && vp_cvg.spin == 0 && vp_g.waited == 0",
+                    "w == &vp_my_w && vp_reg.my_waiting == &vp_my_w.nw.waiting && vp_cvg.my_remove_count == &vp_my_w.remove_count",
+                    "cv_mu == 0 || &cv_mu->word == vp_reg.mu_word",
+                    "cv_mu != 0 || (vp_gen.held == 0 && vp_gen.unlocks == 1 && vp_gen.locks == 0)",
+                    "sem_outcome == 0 || sem_outcome == 110 || sem_outcome == 125",
+                    "(vp_tag_C05_reason != 0 || sem_outcome == 0 || sem_outcome == vp_g.last_sem_outcome)",
+                    "(vp_tag_C05_reason != 0 || outcome == 0 || (outcome == sem_outcome && vp_cvg.self_dequeued == 1))",
+                    "(vp_tag_C04_consume != 0 || vp_cvg.self_dequeued == 0 || vp_cvg.unlinked_by_other == 0)",
+                    "vp_cvg.self_dequeued == 0 || (vp_my_w.nw.waiting == 0 && vp_g.queued == 0 && vp_my_w.cv_mu == cv_mu)",
+                    "vp_cvg.self_dequeued != 0 || (vp_g.queued == 1 && outcome == 0)",
+                    "vp_cvg.self_dequeued != 0 || ((vp_cvg.unlinked_by_other != 0) == (vp_my_w.remove_count != remove_count))",
+                    "vp_cvg.unlinked_by_other != 0 || vp_my_w.cv_mu == cv_mu",
+                    "vp_my_w.cv_mu == cv_mu || vp_my_w.cv_mu == 0",
+                    "vp_my_w.l_type == (cv_mu == 0 ? 0 : (is_reader_mu ? nsync_reader_type_ : nsync_writer_type_))"],
+     "assigns": GALL + FWDL + CVG + ["vp_my_w.nw.waiting", "vp_my_w.remove_count", "vp_my_w.cv_mu", "pcv->word", "pcv->waiters",
+                                      "sem_outcome", "outcome", "attempts", "old_word"]},
+    {"names": ["w"],
+     "invariants": ["vp_cvg.spin == 1 && vp_cvg.self_dequeued == 0 && vp_cvg.unlinked_by_other == 0 && w == &vp_my_w && "
+                    "vp_cvg.my_remove_count == &vp_my_w.remove_count"],
+     "assigns": ["vp_cvg.self_dequeued", "vp_cvg.unlinked_by_other", "vp_my_w.remove_count", "vp_my_w.cv_mu"]}]}
+CV_ASSUMED = MU_ASSUMED + ["environment model of a cv waiter (rg/vp_rg.c cv_env_step): before every atomic step a waker may unlink the record under the cv "
+                           "spinlock (remove_count moves), may transfer it to the mutex queue, and only then may clear its waiting flag",
+                           "abstract waiter queues in the word-level cv proofs; queue contents are covered by the bounded groups"]
+
+
+def cv_groups(tags=None, which=None):
+    gs = [Group(name="cv.wake_waiters", srcs=CV_S, entry="h_wake_waiters", enforce="wake_waiters", loops=L_WAKE_WAITERS, timeout=900, unwind=60,
+                object_bits=10, defines=CV_DEF, tags=tags, assumed=CV_ASSUMED, min_obligations=300),
+          Group(name="cv.wait_with_deadline_generic", srcs=CV_S, entry="h_cv_wait", enforce="nsync_cv_wait_with_deadline_generic",
+                replace=["nsync_spin_delay_", "nsync_waiter_new_", "nsync_waiter_free_", "nsync_spin_test_and_set_", "nsync_mu_unlock", "nsync_mu_runlock",
+                         "nsync_mu_lock", "nsync_mu_rlock", "nsync_mu_lock_slow_", "nsync_sem_wait_with_cancel_"],
+                loops=L_CV_WAIT, timeout=900, unwind=60, object_bits=10, defines=CV_DEF, tags=tags, assumed=CV_ASSUMED, min_obligations=500,
+                functions=["nsync_cv_wait_with_deadline_generic", "nsync_cv_wait_with_deadline", "nsync_cv_wait"])]
+    if which is not None:
+        gs = [g for g in gs if g.name in which]
+    return gs
+
+
+def cv_queue_groups(tags=None, tier="quick"):
+    S = ["harness/cv/cv_queue.c"] + RG + ["repo:internal/dll.c", "repo:internal/common.c"]
+    kmax = 3
+    gs = []
+    for h in ("h_cv_broadcast", "h_cv_signal"):
+        for n in range(0, kmax + 1):
+            d = ["VP_SEQUENTIAL", "VP_RG_MU", "VP_RG_WAKER", "VP_RG_CV", "VP_REAL_SEM", f"VP_K={kmax}", f"VP_N={n}"]
+            if tier == "quick":
+                d.append("VP_WORDS_SMALL")
+            gs.append(Group(name=f"cvq.{h[5:]}.N{n}", srcs=S, entry=h, no_dfcc=True, kind="bounded",
+                            bound=f"exactly {n} waiters on the cv queue (all kinds: native reader / native writer / nsync_wait_n record; with or without an nsync_mu), "
+                                  f"{'5' if tier == 'quick' else '10'} representative values of the mutex word, no interference during the call",
+                            timeout=1800, unwind=12, defines=d, object_bits=10, tags=tags, min_obligations=100,
+                            functions=["nsync_cv_broadcast", "nsync_cv_signal", "wake_waiters"]))
+    return gs
